@@ -119,12 +119,13 @@ def gen_v5(rng, le, asz):
                         ents.append(['ent', eo, addrs[i], addrs[j], expr, True])
                     elif k == 'startx_length':
                         i = ix()
-                        L = rng.choice([0, 1, 0x7f, 0x80, 70000])
+                        L = rng.choice([0, 1, 0x7f, 0x80, 70000, 2 ** 63])
                         b.extend(U_(i) + U_(L))
                         cld()
                         ents.append(['ent', eo, addrs[i], addrs[i] + L, expr, True])
                     elif k == 'offset_pair':
-                        x, y = rng.choice([0, 5, 0x7f, 0x80]), rng.choice([0x10, 0x100, 2 ** 20, 2 ** 35])
+                        # (offsets from a base of 0 reach the upper half of the address space: ten-byte LEB128 numbers)
+                        x, y = rng.choice([0, 5, 0x7f, 0x80, 2 ** 63]), rng.choice([0x10, 0x100, 2 ** 20, 2 ** 35, 2 ** 63 + 5, 2 ** 64 - 1])
                         b.extend(U_(x) + U_(y))
                         cld()
                         ents.append(['ent', eo, x, y, expr, False])
